@@ -1,6 +1,7 @@
 """Adapters to the real implementation: only the public rtamt API is used."""
 import logging
 import os
+import signal
 import sys
 import io
 import contextlib
@@ -108,8 +109,37 @@ def ct_update(spec, batches):
     return spec.update(*args)
 
 
+CALL_LIMIT_S = float(os.environ.get('VERIF_CALL_LIMIT_S', '20'))
+
+
+class CallTimeLimit(Exception):
+    pass
+
+
+def _alarm(signum, frame):
+    raise CallTimeLimit('no result within %g s' % CALL_LIMIT_S)
+
+
 def outcome(fn, *a, **k):
-    """('ok', value) | ('rtamt', msg) | ('exc', 'TypeName: msg')"""
+    """('ok', value) | ('rtamt', msg) | ('exc', 'TypeName: msg').  Every monitored call runs under a wall-clock limit (a bound
+    mis-scaled by 10^9 makes a monitor loop for hours): exceeding it is reported like any other non-RTAMT exception."""
+    own = False
+    try:
+        if signal.getitimer(signal.ITIMER_REAL)[0] == 0:
+            old = signal.signal(signal.SIGALRM, _alarm)
+            signal.setitimer(signal.ITIMER_REAL, CALL_LIMIT_S)
+            own = True
+    except ValueError:      # not in the main thread
+        own = False
+    try:
+        return _outcome(fn, *a, **k)
+    finally:
+        if own:
+            signal.setitimer(signal.ITIMER_REAL, 0)
+            signal.signal(signal.SIGALRM, old)
+
+
+def _outcome(fn, *a, **k):
     try:
         with quiet():
             return ('ok', fn(*a, **k))
